@@ -381,14 +381,15 @@ def run_cases(cx, cases):
             # typed keys: the printed path, every order of the key predicates of its multi-key steps, and mutations that respell
             # predicate values (sign, zeros, blanks, bit order, identityref prefix, Number token), reorder / drop / repeat / rename keys
             probes = []
-            for ad in sample:
+            for ad in sample[:cx.n(4, 6)]:
                 p, node = c.paths[ad], pg.node_at(c.forest, ad)
                 val = node[3] if node[2] in "KeFf" else None
                 probes.append((p, val, "printed"))
                 orders = pg.all_key_orders(p)
-                for q in (orders if len(orders) <= 3 else rng.sample(orders, 3)):
+                nord = cx.n(2, 5)
+                for q in (orders if len(orders) <= nord else rng.sample(orders, nord)):
                     probes.append((q, val, "key-order"))
-                for _ in range(4):
+                for _ in range(cx.n(3, 6)):
                     probes.append((pg.mutate_typed(rng, p), pg.value_variants(rng, val), "mutated"))
             probes += [(p, None, "corpus") for p in c.extra_paths]
             probes = [(p, v, w) for p, v, w in probes if b"$" not in p and b"\x00" not in p and p.lstrip(b" \t\n\r").startswith(b"/")
